@@ -52,6 +52,7 @@ type vrec struct {
 }
 
 type shard struct {
+	last   lastResult
 	ev, nt int64
 	viol   map[string]*vrec
 	order  []string
@@ -221,6 +222,14 @@ type checker struct {
 	cls string
 }
 
+// a returned string is a value: it must not change when the library is called again (a result
+// built in a recycled buffer would). The previous result of each shard is kept with a private
+// copy and compared after the next call.
+type lastResult struct {
+	got, clone, fn string
+	src            func() string
+}
+
 func (k *checker) panicked(fn, call, stack string, val any) {
 	k.sh.fail(k.idx, fn+"|panic|"+k.cls, func() (string, any, string) {
 		return fmt.Sprintf("%s panicked: %v (at %s); want no panic on any input", call, val, common.PanicSite(stack)),
@@ -232,9 +241,22 @@ func (k *checker) panicked(fn, call, stack string, val any) {
 // str runs a string-valued golib call; ok=false if it panicked (already reported).
 func (k *checker) str(fn string, call func() string, src func() string) (got string, ok bool) {
 	val, st, p := common.Catch(func() { got = call() })
+	if l := &k.sh.last; l.got != l.clone {
+		lf, lc, lg, lcl := l.fn, l.src(), l.got, l.clone
+		k.sh.fail(k.idx, lf+"|result-changed-after-a-later-call|"+k.cls, func() (string, any, string) {
+			return fmt.Sprintf("the string returned by %s was %q and reads %q after the next library call (%s)", lc, lcl, lg, src()),
+				map[string]any{"first_call": lc, "next_call": src(), "was": lcl, "now": fmt.Sprintf("%q", lg)}, ""
+		})
+	}
 	if p {
+		k.sh.last = lastResult{}
 		k.panicked(fn, src(), st, val)
 		return "", false
+	}
+	if len(got) > 0 && len(got) <= 64 {
+		k.sh.last = lastResult{got: got, clone: strings.Clone(got), fn: fn, src: src}
+	} else {
+		k.sh.last = lastResult{}
 	}
 	return got, true
 }
@@ -488,8 +510,9 @@ func main() {
 	if r.Thorough() {
 		maxRunes, maxBytes = 7, 7
 	}
-	runeAlpha := []string{"a", "B", "é", "世", "😀", "_"}
-	byteAlpha := []string{"a", "\xff", "\xc3", "\xa9", "\xe4", "\xb8", "\xf0", "\x9f"}
+	// one rune per UTF-8 lead-byte class: ASCII, C2..CF (é), D0..DF (я), E0..EF (世), F0..F4 (😀)
+	runeAlpha := []string{"a", "B", "é", "я", "世", "😀", "_"}
+	byteAlpha := []string{"a", "\xff", "\xc3", "\xa9", "\xd1", "\xe4", "\xb8", "\xf0", "\x9f"}
 
 	// family A
 	famA := common.AllStrings(runeAlpha, maxRunes)
